@@ -200,6 +200,16 @@ func mxParams() mxObj {
 		mxObj{"name": "nums", "in": "query", "style": "deepObject", "explode": true, "schema": mxObj{"type": "object", "additionalProperties": mxObj{"type": "integer", "format": "int64"}}},
 		mxObj{"name": "flags", "in": "query", "style": "deepObject", "explode": true, "schema": mxObj{"type": "object", "additionalProperties": mxObj{"type": "boolean"}}},
 	}}}
+	// static segments next to a templated sibling (with and without children of their own)
+	strParam := func(n string) mxObj {
+		return mxObj{"name": n, "in": "path", "required": true, "schema": mxObj{"type": "string"}}
+	}
+	paths["/sib/me"] = mxObj{"get": mxObj{"operationId": "sib_me", "responses": mxOK()}}
+	paths["/sib/{login}"] = mxObj{"get": mxObj{"operationId": "sib_login", "parameters": []any{strParam("login")}, "responses": mxOK()}}
+	paths["/sib/{login}/repos"] = mxObj{"get": mxObj{"operationId": "sib_login_repos", "parameters": []any{strParam("login")}, "responses": mxOK()}}
+	paths["/sib/all/repos"] = mxObj{"get": mxObj{"operationId": "sib_all_repos", "responses": mxOK()}}
+	paths["/sib/{login}/repos/{repo}"] = mxObj{"get": mxObj{"operationId": "sib_repo", "parameters": []any{strParam("login"), strParam("repo")}, "responses": mxOK()}}
+	paths["/sib/{login}/repos/new"] = mxObj{"get": mxObj{"operationId": "sib_repo_new", "parameters": []any{strParam("login")}, "responses": mxOK()}}
 	// defaults: absent optional parameters arrive as their default
 	var dparams []any
 	for _, d := range []struct {
